@@ -3,9 +3,10 @@ import Hertz.Driver.Core
 import Hertz.Driver.C17
 import Hertz.Driver.C07
 import Hertz.Driver.H1
+import Hertz.Driver.C06
 open Hertz.Driver
 
-def handlers : List Handler := [C17.handle, C07.handle, H1.handle]
+def handlers : List Handler := [C17.handle, C07.handle, H1.handle, C06.handle]
 
 def dispatch (args impl : List String) : Option Result :=
   handlers.firstM (fun h => h args impl)
